@@ -15,6 +15,7 @@ class Sym:
         self.fn = fn
         self.defs = defs_of(fn)
         self.pass_through = PASS | set(pass_through)
+        self.closures = set()
 
     def op(self, o, depth=0):
         c = op_const(o)
@@ -84,6 +85,10 @@ class Sym:
             return self.op(v['a'], depth + 1)
         if r == 'ref':
             return self.place(v['p'], depth + 1)
+        if r == 'agg' and v.get('kind') in ('closure', 'coroutine_closure'):
+            self.closures.add(v.get('def'))
+            tag = (v.get('def') or '').rsplit('::', 1)[-1].strip('{}')
+            return f"{tag}(" + ', '.join(self.op(o, depth + 1) for o in v['ops']) + ')'
         if r == 'agg':
             return f"{v.get('variant') or v.get('kind')}(" + ', '.join(self.op(o, depth + 1) for o in v['ops']) + ')'
         if r == 'bin':
